@@ -21,9 +21,9 @@ def dots_str(cell):
     if cell == 0:
         return "0"
     s = ""
-    for i in range(8):
+    for i in range(15):
         if cell & (1 << i):
-            s += "12345678"[i]
+            s += "123456789abcdef"[i]
     return s
 
 
